@@ -46,6 +46,15 @@ pub fn exec(toks: &[&str]) -> String {
             Ok(o) => o.validate_at(&issuer, true, c01::time(now)).is_ok(),
             Err(_) => false,
         },
+        // relaxed (BER) decoding: the eContent may come in several segments
+        "sor" => match SignedObject::decode(obj, false) {
+            Ok(o) => o.validate_at(&issuer, false, c01::time(now)).is_ok(),
+            Err(_) => false,
+        },
+        "roar" => match Roa::decode(obj, false) {
+            Ok(o) => o.process(&issuer, false, crl).is_ok(),
+            Err(_) => false,
+        },
         "sop" => match SignedObject::decode(obj, true) {
             Ok(o) => o.process(&issuer, true, crl).is_ok(),
             Err(_) => false,
@@ -156,6 +165,8 @@ pub fn world_with(pool: &Pool, with_v6: bool) -> World<'_> {
 }
 
 pub struct ObjCase {
+    /// when not empty: the eContent OCTET STRING in the constructed (BER) form, cut at these lengths
+    pub segments: Vec<usize>,
     pub content_type: Vec<u64>,
     pub content: Vec<u8>,
     pub ee: CertSpec,
@@ -192,7 +203,8 @@ pub fn build(pool: &Pool, c: &ObjCase) -> (Vec<u8>, String) {
         content_type: c.content_type.clone(), content: c.content.clone(), attrs: c.attrs.clone(),
         sid: c.sid.clone(), cert, crl: None, version: c.cms_version, si_version: c.si_version,
     };
-    let obj = pki::encode_cms(&spec, &sig, c.sort_attrs);
+    let obj = if c.segments.is_empty() { pki::encode_cms(&spec, &sig, c.sort_attrs) }
+        else { pki::encode_cms_with(&spec, &sig, c.sort_attrs, pki::octets_segmented(&c.content, &c.segments)) };
     let ct = der::oid(&c.content_type);
     let (h, n) = der::split_tlv(&ct).unwrap();
     let facts = format!("{}:{}:{}:{}:{}:{}:{}",
@@ -368,6 +380,7 @@ pub fn generate(ctx: &mut Ctx) {
         let st = if rng.chance(1, 8) { 2_600_000_000 } else { T0 - rng.below(100000) as i64 };
         let attrs = pki::std_attrs(&content_type, &content, Some(st));
         let mut c = ObjCase {
+            segments: vec![],
             content_type, content, ee, ee_signer: 1, ee_sig_ok: true, attrs, sort_attrs: true,
             sid: pool.keys[2].ski.clone(), sig_key: 2, sig_input: vec![], flip_sig: false, dec: true,
             cms_version: 3, si_version: 3,
@@ -412,6 +425,18 @@ pub fn generate(ctx: &mut Ctx) {
             2 => { let mut v = vec![0x31, 2, (written.len() >> 8) as u8, written.len() as u8]; v.extend_from_slice(&written); v }
             _ => c.content.clone(),
         };
+        // relaxed decoding with the content in segments (one, several, an empty first one)
+        let mut ty = ty;
+        if (ty == "so" || ty == "roa") && rng.chance(1, 5) {
+            ty = if ty == "so" { "sor" } else { "roar" };
+            if rng.chance(4, 5) {
+                let n = c.content.len();
+                c.segments = match rng.below(5) {
+                    0 => vec![], 1 => vec![0], 2 => vec![n / 2], 3 => vec![1, 1, 1],
+                    _ => (0..rng.range(1, 4)).map(|_| rng.below(n as u64 + 1) as usize).collect() };
+                if c.segments.is_empty() && rng.bool() { c.segments = vec![n]; }
+            }
+        }
         let (obj, ofacts) = build(&pool, &c);
         let eefacts = c01::facts(&c.ee, c.ee_sig_ok, true, &pool.keys[2].ski);
         let mut ders = w.chain_ders.clone();
